@@ -429,6 +429,9 @@ def run(tier: str) -> int:
     worlds.append(HistDst(mode="ack", nak="imm", closure=True, size=4, seg=2, disposition=True, ack_limit=1, nak_limit=1, hist_depth=hd, follow_modes=("ack",)))
     for mode in ("ack", "unack"):
         worlds.append(HistSrc(mode=mode, closure=True, size=4, seg=2, ack_limit=1, hist_depth=7 if tier == "quick" else 9))
+    # local entity id wider than the destination id (and vice versa)
+    worlds.append(HistSrc(mode="unack", closure=False, size=2, seg=2, idw_s=2, idw_d=1, hist_depth=5 if tier == "quick" else 7))
+    worlds.append(HistSrc(mode="ack", closure=False, size=2, seg=2, idw_s=1, idw_d=4, ack_limit=1, hist_depth=5 if tier == "quick" else 7))
     # segment length derived from the maximum packet length (no configured value); histories with a wider destination id field
     worlds.append(HistSrc(mode="unack", closure=False, size=14, seg=None, mpl=30, hist_depth=5 if tier == "quick" else 7))
     # small maximum packet length (3 segment requests per NAK PDU without, 2 with the PDU CRC flag)
